@@ -10,11 +10,11 @@ ID = 'C01'
 LEVEL = 'exploration'
 RULE = ('case = (acyclic hard/soft/both DAG over 1-7 probe tasks built by construction, outcome per '
         'task from {done, FAILED, raise, None, non-pair, 3-tuple, bad status str/int, non-mapping '
-        'update int/list}, 1-4 workers, schedule = choice list | PCT priorities+change points) run '
+        'update int/list, well-formed update followed by an entry that cannot be merged}, 1-4 workers, schedule = choice list | PCT priorities+change points) run '
         'on the unmodified QueueScheduling/Env loaded with instrumented threading/queue/time; plus '
         'depth-first enumeration of ALL schedules with <= P pre-emptions for small configurations '
         '(each executed schedule counts as one evaluation). Oracle at every probe start: each '
-        'dependency has a final status, has returned from do() if it was executed, and the full '
+        'dependency has a final status which is still its status when the call returns, has returned from do() if it was executed, and the full '
         'update of every DONE dependency is readable. non-trivial = >=1 edge, >=2 workers and >=1 '
         'pre-emption between a worker leaving do() and its notify; distinct = (graph, outcomes, '
         'workers, trace hash)')
@@ -53,7 +53,7 @@ def _small_configs(tier):
     confs = []
     # two-task configurations, two workers: every edge kind, reduced outcome alphabet
     for kind in 'hsb':
-        for out0 in ['done', 'failed', 'raise', 'nonpair', 'badstatus_str']:
+        for out0 in ['done', 'failed', 'raise', 'nonpair', 'badstatus_str', 'partial_clash']:
             confs.append({'n': 2, 'edges': [(1, 0, kind)], 'outcomes': [out0, 'done'], 'workers': 2})
     # three-task shapes
     shapes3 = {
@@ -100,6 +100,14 @@ def judge(case, rec, out, sched_for_replay=None):
             if not isinstance(status, TaskStatus) or status not in sc.FINAL:
                 fails.append(('dep_not_final', f'C01/dep_not_final/dep={dout}',
                               f'{name} started while {kind}-dependency t{dep} had status {status!r}'))
+            if (isinstance(status, TaskStatus) and status in sc.FINAL and not case.get('again')
+                    and rec.executions[dep] <= 1 and rec.how == 'returned'
+                    and rec.statuses.get(dep) != status):
+                # "has reached a final state": a state that changes afterwards was not final
+                fails.append(('dep_not_final', f'C01/dep_status_changed/dep={dout}',
+                              f'{name} started when {kind}-dependency t{dep} had status {status!r}, '
+                              f'but t{dep} (executed {rec.executions[dep]} time(s)) ended as '
+                              f'{rec.statuses.get(dep)!r}'))
             if case.get('init'):
                 # resumed environment: which tasks are executed is the scheduler's decision
                 # (C04); what C01 says is that a dependency that IS executed during this call has
